@@ -51,8 +51,8 @@ CHECKS = {
     ),
     'C19': dict(
         engine='kani-contracts', category='proof',
-        technique='Kani full-domain harnesses per sample format for the rectifiers; Kani bit-precise harnesses on the real Detector (gains read through a guarded hook) for the envelope clauses',
-        text='PARTIAL: decides the rectifier clause of C19: for all 14 formats and every sample whose negated signed amplitude is representable, full_wave yields |signed amplitude| about equilibrium, positive/negative half-wave yield the sample limited to the upper/lower side of equilibrium, per channel, also through the FullWave/PositiveHalfWave/NegativeHalfWave Rectifier types. Envelope follower (f32 frames, dyadic inputs so that differences are exact): a time of 0 frames gives gain exactly 0 and the envelope equals the detected value; any time in [1/8, 1e6] frames gives a gain in (0,1); set_attack/release_frames change only that gain and no past output; the attack/release choice is made PER CHANNEL on 2-channel frames (bit-exact rule where the chosen gain is 0, between-ness and use of the non-zero gain otherwise); thorough tier: new_env == d + g (env - d) bit-exactly from every state reachable in one step.',
+        technique='Kani full-domain harnesses per sample format for the rectifiers; Verus contracts on Detector::{new, next, set_attack_frames, set_release_frames} (unit envelope, every frame format) and on the detect_envelope adaptor (unit envadapt); Kani bit-precise harnesses on the real Detector (gains read through a guarded hook)',
+        text='PARTIAL: decides the rectifier clause of C19: for all 14 formats and every sample whose negated signed amplitude is representable, full_wave yields |signed amplitude| about equilibrium, positive/negative half-wave yield the sample limited to the upper/lower side of equilibrium, per channel, also through the FullWave/PositiveHalfWave/NegativeHalfWave Rectifier types. Detector::next is PROVED (Verus, extracted text, sample operations uninterpreted) for every frame format, channel count and history to run its detector exactly once, choose attack or release per channel, compute detected + (previous - detected) * gain channel by channel, and store what it returns. Bit-precise part (f32 frames, dyadic inputs so that differences are exact): a time of 0 frames gives gain exactly 0 and the envelope equals the detected value; any time in [1/8, 1e6] frames gives a gain in (0,1); set_attack/release_frames change only that gain and no past output; the attack/release choice is made PER CHANNEL on 2-channel frames (bit-exact rule where the chosen gain is 0, between-ness and use of the non-zero gain otherwise); thorough tier: new_env == d + g (env - d) bit-exactly from every state reachable in one step.',
         note='The VALUE exp(-1/frames) is libm powf and not verified. Envelope harnesses are bounded to two steps from the initial state with concrete attack/release times (3, 7, 0 frames); no Verus unit envelope (unbounded histories follow from the per-step rule, which is checked from reachable states only).',
     ),
     'C17': dict(
